@@ -100,6 +100,11 @@ def main(mod, argv=None) -> int:
 
 def _replay(mod, path: str) -> int:
     doc = core.load_replay(path)
+    want_opt = int((doc["scenario"].get("_env") or {}).get("optimize", 0))
+    if want_opt and not sys.flags.optimize:
+        # recorded by the `python -O` pass: replay under the same interpreter configuration
+        sys.stdout.flush()
+        os.execv(sys.executable, [sys.executable, "-O", "-m", "sim", mod.PROP, "--replay", path])
     res = fresh_evaluate(mod.__name__, doc["scenario"])
     got = res["signature"]
     want = doc.get("signature")
@@ -134,6 +139,7 @@ def _run(mod, args, timer) -> int:
     tasks = mod.plan(tier, seed, args.scale)
     if args.max_tasks:
         tasks = tasks[: args.max_tasks]
+    opt_pass = _start_opt_pass(mod, args, seed, tier)
     stats = core.Stats()
     digests = []
     violations: list[dict] = []
@@ -199,8 +205,22 @@ def _run(mod, args, timer) -> int:
     for fid in sorted(known_hits):
         print(f"KNOWN-FINDING: property={mod.PROP} {known_entries[fid]['what']} (reproduced {known_hits[fid]}x this run)")
 
+    opt_summary = None
+    if opt_pass is not None:
+        opt_code, opt_summary = _finish_opt_pass(mod, opt_pass)
+        if opt_code == core.EXIT_VIOLATION:
+            exit_code = core.EXIT_VIOLATION
+            n_viol += int((opt_summary or {}).get("violations", 1)) or 1
+        elif opt_code != core.EXIT_OK and exit_code == core.EXIT_OK:
+            print(f"HARNESS-ERROR property={mod.PROP} the `python -O` pass ended with exit code {opt_code}")
+            exit_code = core.EXIT_HARNESS
     wall = timer.elapsed()
     coverage, assumptions, problems = mod.finalize(stats, tier, runs, distinct, samples, wall)
+    coverage["environment_swarm"] = {k: v for k, v in sorted(stats.items()) if k.startswith("env_")}
+    coverage["interpreter_configurations"] = {
+        "default": {"runs": runs},
+        "python -O (asserts and __debug__ blocks stripped)": opt_summary or "not run (sub-pass, digest-only or --max-tasks)",
+    }
     coverage.setdefault("run_digest", digest)
     coverage.setdefault("runs", runs)
     coverage.setdefault("runs_per_hour", int(runs / wall * 3600) if wall > 0 else 0)
@@ -210,6 +230,9 @@ def _run(mod, args, timer) -> int:
         core.write_evidence(mod.PROP, tier, seed, mod.LEVEL, coverage, assumptions, wall, n_viol)
     for p in problems:
         print(f"HARNESS-WARNING property={mod.PROP} {p}")
+    if os.environ.get("KIO_VERIF_SUBPASS"):
+        print("SUBPASS-SUMMARY " + json.dumps({"runs": runs, "evaluations": coverage.get("evaluations"), "violations": n_viol,
+                                               "wall_s": round(wall, 1), "seed": seed, "scale": args.scale}), flush=True)
     print(f"done {mod.PROP}: runs={runs} evaluations={coverage.get('evaluations')} distinct_nontrivial={coverage.get('distinct_nontrivial')} "
           f"violations={n_viol} wall={wall:.1f}s", flush=True)
     if exit_code == core.EXIT_OK and any(p.startswith("FATAL") for p in problems):
@@ -217,6 +240,41 @@ def _run(mod, args, timer) -> int:
         print(f"HARNESS-ERROR property={mod.PROP} the workload could not be evaluated; see warnings above")
         return core.EXIT_HARNESS
     return exit_code
+
+
+OPT_SCALE = {"quick": 0.25, "thorough": 0.15}
+
+
+def _start_opt_pass(mod, args, seed: int, tier: str):
+    """A slice of the same check under `python -O` (asserts and `if __debug__:` blocks are stripped
+    from kio as well): an interpreter configuration production may use and the test-suite never does.
+    Runs concurrently in its own interpreter with a few workers; handles its own shrinking and
+    replay files (the recorded scenario carries _env.optimize=1, so --replay re-executes under -O)."""
+    import subprocess
+
+    if (os.environ.get("KIO_VERIF_SUBPASS") or os.environ.get("KIO_VERIF_NO_OPT_PASS") or args.digest_only or args.max_tasks
+            or sys.flags.optimize):
+        return None
+    env = {**os.environ, "KIO_VERIF_SUBPASS": "optimize", "KIO_VERIF_WORKERS": str(max(2, core.n_workers() // 4))}
+    cmd = [sys.executable, "-O", "-m", "sim", mod.PROP, "--tier", tier, "--seed", str(seed ^ 0x4F50), "--scale",
+           str(args.scale * OPT_SCALE[tier]), "--no-evidence"]
+    return subprocess.Popen(cmd, env=env, cwd=core.VERIF, stdout=subprocess.PIPE, stderr=subprocess.STDOUT, text=True)
+
+
+def _finish_opt_pass(mod, proc) -> tuple[int, dict | None]:
+    out, _ = proc.communicate()
+    summary = None
+    for ln in out.splitlines():
+        if ln.startswith("SUBPASS-SUMMARY "):
+            summary = json.loads(ln[len("SUBPASS-SUMMARY "):])
+        elif ln.startswith("VIOLATION ") or ln.startswith("  violation:"):
+            print(ln + ("  [python -O pass]" if ln.startswith("  violation:") else ""), flush=True)
+        elif ln.startswith("HARNESS-ERROR") or ln.startswith("HARNESS-WARNING"):
+            print(ln + "  [python -O pass]", flush=True)
+    code = proc.returncode
+    if code not in (core.EXIT_OK, core.EXIT_VIOLATION):
+        print("  [python -O pass] output tail: " + out[-600:].replace("\n", " | "), flush=True)
+    return code, summary
 
 
 def _sig_class(v: dict) -> str:
